@@ -89,6 +89,9 @@ MUTANTS = [
     m("c13-scale-inplace-raw", ["C13"], R, "            self._pmin = np.minimum(pmin, pmax)\n            self._pmax = np.maximum(pmin, pmax)\n", "            self._pmin = pmin\n            self._pmax = pmax\n"),
     m("c13-scale-inplace-zero", ["C13"], R, "            if not np.all(pmax - pmin):\n", "            if False:\n",
       anchor="def scale(self, factor, reference_point=None, inplace=False):"),
+    m("c04-periodic-substring-test", ["C04", "C05"], F, "periodic = (\n            self.mesh.bc not in (\"neumann\", \"dirichlet\") and direction in self.mesh.bc\n        )",
+      "periodic = direction in self.mesh.bc"),   # AF26 before its repair
+    m("c04-periodic-one-name-excluded", ["C04"], F, "self.mesh.bc not in (\"neumann\", \"dirichlet\") and direction in self.mesh.bc", "self.mesh.bc != \"neumann\" and direction in self.mesh.bc"),
     m("c13-translate-complex-elements", ["C13"], R, "            if not isinstance(elem, numbers.Real):\n                raise TypeError(\n                    f\"Unsupported element {elem} of type {type(elem)} for translate.\"",
       "            if not isinstance(elem, numbers.Number):\n                raise TypeError(\n                    f\"Unsupported element {elem} of type {type(elem)} for translate.\""),   # AF25 before its repair
     m("c13-scale-complex-elements", ["C13"], R, "                if not isinstance(elem, numbers.Real):\n                    raise TypeError(\n                        f\"Unsupported element {elem} of type {type(elem)} for scale.\"",
